@@ -760,6 +760,23 @@ def rule_counted(ctx):
                         foreign = "`%s`" % Render(c).e(y)[:50]
                     if y.get("k") == "Field" and y["name"] == "labels" and "CountedTargets" in (c.ty(peel_refs(y["e"]).get("t")) or ""):
                         foreign = "`%s`" % Render(c).e(y)[:50]
+                # ... or from `label_frequencies()`, which sums *weights* per label: a number of samples only for unit weights
+                if not foreign and lab is not None:
+                    seen_f, stack_f = set(), [lab]
+                    while stack_f and len(seen_f) < 40:
+                        e_f = stack_f.pop()
+                        for y in walk(e_f):
+                            if y.get("k") == "MethodCall" and y["name"] == "label_frequencies":
+                                foreign = "`%s` (per-label sums of the sample weights, not numbers of samples)" % Render(c).e(y)[:40]
+                            if y.get("k") == "Path" and y.get("local") in inits and y["local"] not in seen_f:
+                                seen_f.add(y["local"])
+                                stack_f.append(inits[y["local"]])
+                            # a map filled by `m.insert(k, v)` statements: what is inserted is part of its value
+                            if y.get("k") == "Path" and "local" in y:
+                                for z in walk(fn["body"]):
+                                    if z.get("k") == "MethodCall" and z["name"] in ("insert", "push", "extend") and peel_refs(z["recv"]).get("local") == y["local"] and id(z) not in seen_f:
+                                        seen_f.add(id(z))
+                                        stack_f.extend(z["args"])
                 if foreign:
                     res.violate("%s : counted-targets-forged" % key, "a CountedTargets value is built with a `labels` cache derived from %s, the counts of another container, not from the targets it wraps: the cached counts can disagree with the targets" % foreign, fn_loc(fn, n["ln"]))
                 else:
@@ -872,4 +889,5 @@ def rule_unit(ctx):
 
 
 def rules(tier):
-    return [rule_align, rule_filter, rule_columns, rule_layout, rule_domain, rule_memorder, rule_extent, rule_search, rule_counted, rule_unit]
+    from . import iteroverride
+    return [iteroverride.make_rule("R-C02-iter", {"linfa"}, 3, "the linfa crate (sample, feature / target and chunk iterators of a dataset)"), rule_align, rule_filter, rule_columns, rule_layout, rule_domain, rule_memorder, rule_extent, rule_search, rule_counted, rule_unit]
